@@ -141,16 +141,16 @@ def observe(case):
         import types
         # the assignment is handed over as a dict, a read-only mapping, an OrderedDict, a ChainMap or a defaultdict (which would
         # insert a key on a careless look-up); whatever it is, evaluate must leave it as it was
-        flavour = common.pick(repr(case.get("term"))[:200], 5) if ctx else 0
+        flavour = common.pick(repr(case.get("term"))[:200], 6) if ctx else 0
         given = None if ctx is None else dict(ctx)
         if ctx is not None:
             given = (given, types.MappingProxyType(dict(ctx)), collections.OrderedDict(ctx), collections.ChainMap(dict(ctx), {}),
-                     collections.defaultdict(lambda: None, ctx))[flavour]
+                     collections.defaultdict(lambda: None, ctx), collections.defaultdict(int, ctx))[flavour]
         with warnings.catch_warnings():
             warnings.simplefilter("ignore")
             r = tree.evaluate(given)
         if given is not None and dict(given) != dict(ctx):
-            return {"t": "exc", "cls": "evaluate changed the assignment it was given"}
+            return {"t": "mutated", "cls": "evaluate changed the assignment it was given"}
     except RecursionError:
         return {"t": "exc", "cls": "RecursionError"}
     except BaseException as e:  # noqa
